@@ -39,6 +39,7 @@ PROPERTIES = {
         "rules": [
             (D.D4_windows, "C02.1-2 search radius and window bounds on all axes"),
             (C.C_axis_windows, "C02.2-3 plane normals paired with the remaining lattice row; 27 images; home cell first"),
+            (B.B2_axis_runs, "C02 per-axis sibling expressions cover axes 0,1,2 exactly once", {"funcs": ["_get_positions_from_all_adjacent_unit_cells", "uc_neighbor_offsets"]}),
             (C.C_idx_find, "C02.3-4 start atoms from the home block; grouping key folds like the result"),
             (A.A6_rotation_gate, "C02.4 at most one survivor per atom group"),
             (A.A7_tolerance_provenance, "C02.5 filter tolerance", {"funcs": ["find_pattern_in_structure"]}),
@@ -127,6 +128,7 @@ PROPERTIES = {
     "C07": {
         "rules": [
             (A.A5_overlap_guard, "C07 guard shape, raise, retained atoms, set semantics"),
+            (B.G1_no_swallowed_errors, "C07 no handler between the refusal and the caller: the overlap error cannot be swallowed"),
             (C.C_idx_replace, "C07 retained-atom map values are structure indices of this match"),
             (C.C_unchanged_pairs, "C07 which atoms count as retained: equal element and coinciding coordinates only"),
         ],
@@ -234,6 +236,7 @@ PROPERTIES = {
             (D.D3_format_arity, "C13 format arity at all writer sites", {"modules": ["mofun.atoms"]}),
             (E.E_dispatch, "C13 load/save dispatch by extension or explicit type"),
             (C.C_axis_diag, "C13 box lengths from the cell diagonal only after LAMMPS orientation is validated"),
+            (B.G1_no_swallowed_errors, "C13 the reader's only exception handler is the documented element fallback"),
         ],
         "decided": "sections written are sections parsed; per section and atom style the writer's columns equal the reader's slices with +1/-1 pairing; tilt factors are written from and read back "
                    "into the same cell entries; count lines use arrays of their own kind; declared type counts equal table lengths; comment re-attachment uses the writer's separator; dispatch opens the right mode",
@@ -257,6 +260,7 @@ PROPERTIES = {
             (E.E2_cif_tags, "C15.2-4 writer and reader agree on tags; s.u. stripping; wrap before cell product; P1 rejection"),
             (B.B1_kind_blocks, "C15.2/5 per-kind blocks agree", {"funcs": ["Atoms.load_p1_cif", "Atoms.save_p1_cif", "Atoms.__init__"]}),
             (E.E_cif_labels, "C15.3 labels unique and resolvable"),
+            (B.B2_axis_runs, "C15 x/y/z columns and label_1..n tags are listed completely and in order", {"funcs": ["Atoms.save_p1_cif", "Atoms.load_p1_cif", "Atoms.cell_abc_alpha_beta_gamma"]}),
         ],
         "decided": "every CifFile API used exists in the installed PyCifRW; tags written are tags read (case-insensitively) for coordinates, labels, charges, bonds, angles, torsions, cell; every numeric "
                    "conversion goes through the s.u.-stripping helper; fractional wrap precedes the cell product; non-P1 is rejected; labels are element + running count and resolved through the label list",
